@@ -176,6 +176,16 @@ def gen_helper_cases(rng, R: L.Real, n: int, stats: Counter):
         gs = gen_shape_value(rng, p_none=0.4)
         add("getShapeValue", f"getShapeValue {gk} {1 if gi else 0} {gn} {L.enc_ints(gv)} {L.enc_shape(gs)}",
             lambda a=gk, b=gi, c=gn, d=gv, e=gs: R.get_shape_value(a, b, c, d, e))
+        # ---- no-op arithmetic rules: the matcher's scalar test on the constant operand
+        nop = rng.choice(["Mul", "Add", "Sub", "Div"])
+        nside = rng.choice([0, 1])
+        ncs = rng.choice([[], [], [1], [1], [1, 1], [2], [1, 2]])
+        neutral = 1.0 if nop in ("Mul", "Div") else 0.0
+        nval = neutral if rng.random() < 0.75 else rng.choice([2.0, 0.0 if neutral == 1.0 else 1.0, -1.0])
+        nx = L.gen_oshape(rng, p_none=0.05, max_rank=3)
+        nin = rng.random() < 0.5
+        add("ruleNoOp", f"noOp {nop} {nside} {len(ncs)} {1 if nval == neutral else 0}",
+            lambda a=nop, b=nside, c=nx, d=ncs, e=nval, f=nin: R.rule_no_op(a, b, c, d, e, f))
         # ---- evaluators
         s = L.gen_oshape(rng)
         st = rng.choice([0, 0, 0, 1, 2, -1, -2, 5, -7])
